@@ -37,9 +37,12 @@ structure Cache where
   sigLen : Nat                    -- `scheme.SigGroup.PointLen()`
   rounds : List (RId × RoundCache)
   rcvd : List (Nat × List RId)
+  /-- the variant switch (regenerated: `Gen.replaceSameIndex`): what `roundCache.append` does with a partial whose signer
+  index is already cached for the round — false: the cached one stays (first wins), true: the new one replaces it -/
+  replace : Bool := false
   deriving DecidableEq, Repr
 
-def Cache.empty (sigLen : Nat) : Cache := ⟨sigLen, [], []⟩
+def Cache.empty (sigLen : Nat) (replace : Bool := false) : Cache := ⟨sigLen, [], [], replace⟩
 
 section assoc
 variable {κ ν : Type} [DecidableEq κ]
@@ -62,13 +65,14 @@ inductive AppendRes where
   | errEvicted      -- "evicted round missing from cache"
   deriving DecidableEq, Repr
 
-/-- `roundCache.append`: false when this signer is already cached for the round -/
-def RoundCache.append (sigLen : Nat) (r : RoundCache) (p : Partial) : RoundCache × Bool :=
+/-- `roundCache.append`: false when this signer is already cached for the round; in the variant `rep` the bytes cached
+for it are replaced by the new partial's (`r.sigs[idx] = p.GetPartialSig(); return !seen`) -/
+def RoundCache.append (sigLen : Nat) (rep : Bool) (r : RoundCache) (p : Partial) : RoundCache × Bool :=
   match indexOf sigLen p.psig with
   | none => (r, false)
   | some idx =>
     match aget idx r.sigs with
-    | some _ => (r, false)
+    | some _ => (if rep then { r with sigs := aset idx p.psig r.sigs } else r, false)
     | none => ({ r with sigs := r.sigs ++ [(idx, p.psig)] }, true)
 
 def maxPartials : Nat := Gen.maxPartialsPerNode
@@ -119,9 +123,10 @@ def Cache.append (c : Cache) (p : Partial) : Cache × AppendRes :=
     match c.getCache id p with
     | (c', .error e) => (c', e)
     | (c', .ok r) =>
-      let (r', added) := r.append c.sigLen p
+      let (r', added) := r.append c.sigLen c.replace p
       if added then
         ({ c' with rounds := aset id r' c'.rounds, rcvd := aset idx (c'.rcvdOf idx ++ [id]) c'.rcvd }, .ok)
+      else if c.replace then ({ c' with rounds := aset id r' c'.rounds }, .ok)   -- the round cache is a pointer: the replaced bytes stay
       else (c', .ok)
 
 /-- remove `id` from the list of every signer that has a partial in the flushed round -/
